@@ -41,6 +41,10 @@ CLAIMED = {
          "Proof: 29 theorems (non-negativity, symmetry incl. the half-period tie, zero iff equivalent, period / quaternion-sign invariance, gradient = derivative via HasDerivAt, wrap range/equivalence/idempotence, interpolation end points and manifold) hold for all real inputs of the model; the model is tied to the C++ by running both on generated and edge-case pairs every run.",
          "Model hand-written (CvModel/Value.lean), not extracted; floating point not modelled (theorems over R, comparison at 1e-9 relative); quaternion PI constant instantiated with Real.pi in theorems; periodic variables exercised through distanceZ with period/wrapAround.",
          "DESIGN.md §4 C18"),
+ "C19": ("Lean 4 theorems about a model of what is written (columns per output flag set, line schedule with the label flag, running average / deviation) + differential correspondence on the real trajectory and running-average files + per-file oracle",
+         "Proof: 9 theorems — for every combination of the output flags of a variable (incl. extended-Lagrangian) and of a bias, the fields of a data line are exactly the columns announced by the label line, in the same order, hence so is the whole line; the data lines of any run are exactly the steps that are multiples of the frequency, in order, stamped with that step; starting from initialisation every data line follows a label line written for the very same set of columns (configuration changes in mid-run included); the running average is the arithmetic mean and the written deviation the sample standard deviation of the last runAveLength values, and nothing is written before the window is full. Tied to the code by predicting every label and data line (step, column count, label strings) of real trajectory files over all flag sets, frequencies 1-4, starts off the schedule, mid-run additions and repeated steps, and every running-average line; the oracle checks columns vs preceding label, schedule and textbook statistics on the files themselves.",
+         "Model hand-written (CvModel/Output.lean). Partial: time-correlation functions, work/energy/centre column *values* (C06 covers the values; here only the columns) and number formatting are not modelled. Two running-average defects repaired by fix: commits. The running-average file stamps lines with the step relative to the run start (as the code does).",
+         "DESIGN.md §4 C19"),
  "C20": ("Lean 4 theorems about the dispatch model over a command table regenerated from the source by a translator on every run (plus decide-obligations on that table) + differential correspondence of outcome classes + query-vs-engine oracle",
          "Proof: 11 theorems — the dispatcher is total; a command body runs only with min <= nargs <= max and nargs equals the words after the command words, so every guarded argument access is in range; unknown module commands, commands on missing objects and wrong arities are errors that never reach a body; the regenerated table has distinct names, min <= max and reachable prefixes (re-decided whenever colvarscript_commands*.h changes). The translator's output is cross-checked against the table of the running library. Sequences of well-formed and malformed commands (all 86 commands, wrong arity, empty/huge/non-numeric arguments, missing objects) interleaved with steps, deletions and additions are run through run_colvarscript_command and the outcome class compared with the model; values, gradients, applied forces, atom forces, atom ids and energy returned by queries are compared with the engine-side arrays of the same step.",
          "Partial: the 86 command bodies are not modelled (their numbers are checked by the oracle only; memory safety of bodies is evidence from sampled runs). Outcome classes of rejected calls are read from the dispatcher's messages. cv getenergy prints 6 significant digits; compared at that precision.",
